@@ -2,19 +2,39 @@
    the message assembly of include/nitro/except/exception.hpp / raise.hpp, following the C++ statement
    by statement.  No proofs here. *)
 From Coq Require Import List Arith Bool ZArith.
-From Coq Require Decimal.
+From Coq Require Decimal Hexadecimal.
 From Coq Require Import Init.Byte.
 From Nitro Require Import Base.Bytes.
 Import ListNotations.
 Local Open Scope list_scope.
 
 (* ---------- stream representation of an argument (str << arg) ----------
-   Arguments reach the formatter and the exception only through  stringstream << arg.  The model has
-   three kinds of argument: a std::string (written byte for byte), a long, and a double whose value is
-   an integer of magnitude < 10^6 (so that the default precision 6 prints all its digits and no
-   exponent).  The decimal printer stands for libstdc++'s operator<<; that correspondence is only
-   exercised by the driver, not proved. *)
-Inductive arg := AStr (s : str) | AInt (z : Z) | ADbl (z : Z).
+   Arguments reach the formatter only through   stream_type str; str << arg;   with a stream that is
+   constructed for that one argument (operator% declares it locally), so the text of an argument is what
+   a FRESH stringstream (dec, no boolalpha/showbase, precision 6, fill ' ', width 0) produces for it and
+   is a function of that argument alone.  The kinds of argument of the model:
+     AStr s        std::string / const char*: written byte for byte
+     AInt z        long
+     ADbl z        double with integer value z, |z| < 10^6 (precision 6 prints all digits, no exponent)
+     ABool b       bool (no boolalpha on a fresh stream: 1 / 0)
+     AHalf z       double z + 1/2, |z| < 10^5
+   user-defined types whose operator<< changes the formatting state of the stream and does not restore it:
+     AHexer z      os << std::hex << v                       (unsigned long v = z >= 0)
+     AFixer z      os << std::fixed << std::setprecision(2) << v      (double v = z, |z| < 10^6)
+     APadder z     os << std::setfill('*') << std::left << std::setw(6) << v      (long v = z)
+     ABoolAlpha b  os << std::boolalpha << b
+   and iostream manipulators passed as arguments (AManip): they only change the state of the stream they
+   are inserted into, which is discarded, so they render as the empty text.
+   The printers stand for libstdc++'s operator<<; that correspondence is only exercised by the driver,
+   not proved. *)
+Inductive manip :=
+  | MHex | MBoolalpha | MShowbase | MShowpos | MUppercase | MFixed | MLeft
+  | MSetprecision (n : nat) | MSetw (n : nat) | MSetfill (c : byte).
+
+Inductive arg :=
+  | AStr (s : str) | AInt (z : Z) | ADbl (z : Z) | ABool (b : bool) | AHalf (z : Z)
+  | AHexer (z : Z) | AFixer (z : Z) | APadder (z : Z) | ABoolAlpha (b : bool)
+  | AManip (m : manip).
 
 Fixpoint render_uint (u : Decimal.uint) : str :=
   match u with
@@ -30,8 +50,54 @@ Definition render_int (i : Decimal.int) : str :=
 (* decimal digits, most significant first, '-' in front of negative numbers, "0" for zero *)
 Definition print_dec (z : Z) : str := render_int (Z.to_int z).
 
+Fixpoint render_hex_uint (u : Hexadecimal.uint) : str :=
+  match u with
+  | Hexadecimal.Nil => []
+  | Hexadecimal.D0 u => x30 :: render_hex_uint u | Hexadecimal.D1 u => x31 :: render_hex_uint u
+  | Hexadecimal.D2 u => x32 :: render_hex_uint u | Hexadecimal.D3 u => x33 :: render_hex_uint u
+  | Hexadecimal.D4 u => x34 :: render_hex_uint u | Hexadecimal.D5 u => x35 :: render_hex_uint u
+  | Hexadecimal.D6 u => x36 :: render_hex_uint u | Hexadecimal.D7 u => x37 :: render_hex_uint u
+  | Hexadecimal.D8 u => x38 :: render_hex_uint u | Hexadecimal.D9 u => x39 :: render_hex_uint u
+  | Hexadecimal.Da u => x61 :: render_hex_uint u | Hexadecimal.Db u => x62 :: render_hex_uint u
+  | Hexadecimal.Dc u => x63 :: render_hex_uint u | Hexadecimal.Dd u => x64 :: render_hex_uint u
+  | Hexadecimal.De u => x65 :: render_hex_uint u | Hexadecimal.Df u => x66 :: render_hex_uint u
+  end.
+(* lower-case hexadecimal digits of a non-negative number (a '-' for negative ones, which the
+   unsigned C++ value never is) *)
+Definition print_hex (z : Z) : str :=
+  match Z.to_hex_int z with
+  | Hexadecimal.Pos u => render_hex_uint u
+  | Hexadecimal.Neg u => x2d :: render_hex_uint u
+  end.
+
+Definition print_bool (b : bool) : str := if b then [x31] else [x30].
+Definition print_boolalpha (b : bool) : str :=
+  if b then [x74; x72; x75; x65] else [x66; x61; x6c; x73; x65].
+(* z + 1/2 with six significant digits: "z.5";  for negative z the value is -((-z-1) + 1/2) *)
+Definition print_half (z : Z) : str :=
+  if (0 <=? z)%Z then print_dec z ++ [x2e; x35]
+  else x2d :: print_dec (- z - 1)%Z ++ [x2e; x35].
+(* left-adjusted in a field of six, filled with '*' *)
+Definition print_padded (z : Z) : str :=
+  let d := print_dec z in d ++ repeat x2a (6 - length d).
+
 Definition render (a : arg) : str :=
-  match a with AStr s => s | AInt z => print_dec z | ADbl z => print_dec z end.
+  match a with
+  | AStr s => s
+  | AInt z => print_dec z
+  | ADbl z => print_dec z
+  | ABool b => print_bool b
+  | AHalf z => print_half z
+  | AHexer z => print_hex z
+  | AFixer z => print_dec z ++ [x2e; x30; x30]
+  | APadder z => print_padded z
+  | ABoolAlpha b => print_boolalpha b
+  | AManip _ => []
+  end.
+
+(* the arguments that leave the formatting state of the stream they are written to unchanged *)
+Definition stateless (a : arg) : bool :=
+  match a with AStr _ | AInt _ | ADbl _ | ABool _ | AHalf _ => true | _ => false end.
 
 (* ---------- formatter ---------- *)
 
@@ -103,7 +169,20 @@ Definition apply_ops (f : formatter) (ops : list op) : formatter := fold_left ap
 (* nitro::format(fmt) followed by the chain, then str() *)
 Definition format_chain (fmt : str) (ops : list op) : res := str_of (apply_ops (mk fmt) ops).
 
+(* several formatter objects used one after the other on the same thread: the class has no static or
+   thread-local member and operator% builds its stream locally, so no state is carried from one
+   formatter (or one argument) to the next — each result is that of the formatter alone *)
+Definition format_seq (l : list (str * list op)) : list res :=
+  map (fun fo => format_chain (fst fo) (snd fo)) l.
+
 (* ---------- exception message ---------- *)
+
+(* NOTE on scope: make_string writes ALL arguments into ONE stringstream, so an argument that changes
+   the formatting state (AHexer, AFixer, APadder, ABoolAlpha, AManip) influences how the following
+   arguments of the same message are printed (raise(hexer{255}, 16) gives "ff10"; raise("v=", std::hex,
+   255) gives "v=ff").  The model below writes each argument's own text and is therefore a model of the
+   code only for argument lists whose members are all `stateless`; the theorem about it carries that
+   hypothesis and the driver only sends such lists. *)
 
 (* detail::make_exception<Arg, Args...>::operator():  msg << arg; recurse on the rest.  The recursion
    ends at the one-argument specialisation; a call without any argument does not compile, the []
